@@ -199,6 +199,29 @@ func c17ReadMessage(r *eng.Run, retained *[]func() string) string {
 	if len(all) != len(model) {
 		r.FailProp("C04", "missing_delivery", "ReadMessage delivered %d of %d units", len(all), len(model))
 	}
+	if r.T.Bool(sim.LAct) {
+		// The application answers the control messages it was handed, the
+		// documented way, and goes on using the payloads afterwards.
+		replies := NewPipe(r, nil)
+		for i := range all {
+			if !all[i].OpCode.IsControl() || i >= len(model) {
+				continue
+			}
+			variant := r.T.Int(sim.LAct, 2)
+			switch {
+			case variant == 0:
+				wsutil.HandleControlMessage(replies, cfg.State(), all[i])
+			case side == ref.Client:
+				wsutil.HandleServerControlMessage(replies, all[i])
+			default:
+				wsutil.HandleClientControlMessage(replies, all[i])
+			}
+			if !bytes.Equal(all[i].Payload, model[i].Data) {
+				r.Failf("caller_slice_modified", "HandleControlMessage (side=%d) modified the payload of the message it was given (opcode %d, %d bytes)%s", side, all[i].OpCode, len(model[i].Data), firstDiff(all[i].Payload, model[i].Data))
+			}
+			r.Probe("control_message_answered_then_inspected")
+		}
+	}
 	for i := range all {
 		i := i
 		m := all[i] // retained as returned
@@ -321,6 +344,37 @@ func c17MaskHelpers(r *eng.Run) string {
 // c17WriteSide: client-side writes leave the caller's slice intact - also when
 // the destination fails - and bytes already handed over do not change when
 // the caller reuses its slice.
+// c17ClientWriter returns a client-side Writer of the given size the way
+// applications come by one: constructed, constructed for the other side and
+// Reset, or taken from the writer pool after a server-side user.
+func c17ClientWriter(r *eng.Run, dst io.Writer, size int) *wsutil.Writer {
+	v := r.T.Int(sim.LCfg, 4)
+	if (v == 1 || v == 3) && size < 16 {
+		// A buffer sized for a server header cannot hold a client header plus
+		// a byte: Reset panics there exactly like the constructor would; and
+		// GetWriter below the pool's smallest class is NewWriterBufferSize with
+		// that raw size, which panics by contract when no header fits.
+		v = 0
+	}
+	switch v {
+	case 1:
+		w := wsutil.NewWriterSize(io.Discard, ws.StateServerSide, ws.OpText, size)
+		w.Reset(dst, ws.StateClientSide, ws.OpBinary)
+		r.Probe("client_writer_was_reset_from_server_side")
+		return w
+	case 2:
+		w := wsutil.NewWriterBufferSize(io.Discard, ws.StateServerSide, ws.OpText, size+14)
+		w.Reset(dst, ws.StateClientSide, ws.OpBinary)
+		r.Probe("client_writer_was_reset_from_server_side")
+		return w
+	case 3:
+		wsutil.PutWriter(wsutil.GetWriter(io.Discard, ws.StateServerSide, ws.OpText, size))
+		r.Probe("client_writer_from_pool_after_server_side_user")
+		return wsutil.GetWriter(dst, ws.StateClientSide, ws.OpBinary, size)
+	}
+	return wsutil.NewWriterSize(dst, ws.StateClientSide, ws.OpBinary, size)
+}
+
 func c17WriteSide(r *eng.Run) string {
 	n := []int{0, 1, 100, 127, 128, 129, 4096, 65536, 65537, 70000}[r.T.Int(sim.LLen, 10)]
 	data := patBytes(r.T.U32(sim.LPaySeed), 0, n)
@@ -339,13 +393,13 @@ func c17WriteSide(r *eng.Run) string {
 	case 0:
 		err = wsutil.WriteClientMessage(dst, ws.OpBinary, data)
 	case 1:
-		w := wsutil.NewWriter(dst, ws.StateClientSide, ws.OpBinary)
+		w := c17ClientWriter(r, dst, 4096)
 		_, err = w.WriteThrough(data)
 	case 2:
 		cw := wsutil.NewCipherWriter(dst, drawMask(r))
 		_, err = cw.Write(data)
 	default:
-		w := wsutil.NewWriterSize(dst, ws.StateClientSide, ws.OpBinary, 1+r.T.Int(sim.LSize, 200))
+		w := c17ClientWriter(r, dst, 1+r.T.Int(sim.LSize, 200))
 		_, err = w.Write(data)
 		if err == nil {
 			err = w.Flush()
